@@ -161,6 +161,7 @@ struct Reg {
 
 struct Sess {
     enc: Encapsulator<HCrc>,
+    enc_xor: u32,
     dec: Option<Dec>,
     regs: HashMap<usize, Reg>,
     ctxs: HashMap<usize, ContextFrag>,
@@ -178,6 +179,7 @@ impl Sess {
     fn new() -> Self {
         Sess {
             enc: Encapsulator::new(HCrc { xor: 0 }),
+            enc_xor: 0,
             dec: None,
             regs: HashMap::new(),
             ctxs: HashMap::new(),
@@ -247,10 +249,16 @@ impl Sess {
         // a field that cannot be read from the Debug output (renamed, regrouped): the whole state counts as
         // not observable and only results are compared
         if s.contains('?') || max.parse::<u32>().is_err() || cur.parse::<u32>().is_err() {
-            "E ?".to_string()
-        } else {
-            s
+            return "E ?".to_string();
         }
+        // the two getters of the public API must tell the same story as the state itself
+        let mut e = self.enc.clone();
+        let flag = e.is_enabled_re_use_label();
+        let xor = e.get_crc_calculator().xor;
+        if (flag && reuse != "true") || (!flag && reuse != "false") || xor != self.enc_xor {
+            return format!("E !getters is_enabled_re_use_label={} get_crc_calculator.xor={}", flag, xor);
+        }
+        s
     }
 
     /// degraded mode (the crate's verification hooks do not compile against the current source, so the
@@ -845,6 +853,7 @@ fn step_inner(s: &mut Sess, toks: &[&str]) -> Option<String> {
         }
         ["enc_new"] => {
             s.enc = Encapsulator::new(HCrc { xor: 0 });
+            s.enc_xor = 0;
             Some(format!("ok | {}", s.fmt_enc()))
         }
         ["enc_reset"] => {
@@ -861,11 +870,13 @@ fn step_inner(s: &mut Sess, toks: &[&str]) -> Option<String> {
         }
         ["enc_set_crc"] => {
             s.enc.set_crc_calculator(HCrc { xor: 0 });
+            s.enc_xor = 0;
             Some(format!("ok | {}", s.fmt_enc()))
         }
         ["enc_set_crc", k] => {
             let k: u32 = k.parse().ok()?;
             s.enc.set_crc_calculator(HCrc { xor: k });
+            s.enc_xor = k;
             Some(format!("ok | {}", s.fmt_enc()))
         }
         ["enc_enable_max", n] => {
